@@ -535,9 +535,10 @@ pub struct LSys {
 impl LSys {
     pub fn new(variant: usize) -> LSys {
         let ext = vec![(0x0202u16, vec![0xE1u8, 0xE2])];
-        // first buffer = first-fragment header (with the full label) + 3: the PDUs (>= 16 bytes) never fit a complete
-        // packet in it, with or without re-use substitution
-        let t = |id: u8, label: Lbl, n: usize, with_ext: bool, next_buf: usize| LTrain { id, label, pt: 0x0800, pdu: pdu(n, (id % 4) as u8), exts: if with_ext { ext.clone() } else { vec![] }, first_buf: 7 + label.wire_len() + if with_ext { 4 } else { 0 } + 3, next_buf };
+        // first buffer = first-fragment header (with the full label) + 3, at least 13 bytes (the size C02 promises is
+        // accepted whatever the label), plus the extension: the PDUs (>= 16 bytes) never fit a complete packet in it, with
+        // or without re-use substitution
+        let t = |id: u8, label: Lbl, n: usize, with_ext: bool, next_buf: usize| LTrain { id, label, pt: 0x0800, pdu: pdu(n, (id % 4) as u8), exts: if with_ext { ext.clone() } else { vec![] }, first_buf: (7 + label.wire_len() + 3).max(13) + if with_ext { 4 } else { 0 }, next_buf };
         let trains = match variant {
             // two trains sharing a 6-byte label (one through encap_ext), one with another label
             0 => vec![t(0, L6A, 20, true, 12), t(1, L6A, 18, false, 10), t(2, L3A, 16, true, 64)],
@@ -649,7 +650,14 @@ impl System for LSys {
                     }
                     EncOut::Completed(l) => *l,
                     other => {
-                        viols.push((format!("C07|live|sender-refuses|{}|{}", if started { "continue" } else { "first" }, other.class()), format!("{:?}: the sender answers {:?} (buffer {})", op, other, buf.len())));
+                        // which buffers a sender accepts is C02's / C11's business (>= 13 bytes for encap, >= 7 for encap_frag);
+                        // a refusal of encap_ext is nobody's: the path ends here and the model reports itself incomplete
+                        if t.exts.is_empty() || started {
+                            viols.push((format!("C07|live|sender-refuses|{}|{}", if started { "continue" } else { "first" }, other.class()), format!("{:?}: the sender answers {:?} (buffer {})", op, other, buf.len())));
+                        } else {
+                            acc.outcome("live:encap_ext-refused-first-buffer");
+                            SENDER_REFUSED.store(true, std::sync::atomic::Ordering::Relaxed);
+                        }
                         return StepOut { next: None, viols };
                     }
                 };
@@ -683,6 +691,8 @@ impl System for LSys {
     }
 }
 
+static SENDER_REFUSED: std::sync::atomic::AtomicBool = std::sync::atomic::AtomicBool::new(false);
+
 pub fn run_live(rep: &Report) {
     for variant in 0..3usize {
         let sys = LSys::new(variant);
@@ -692,7 +702,9 @@ pub fn run_live(rep: &Report) {
         }
         let all_done = ex.states.iter().any(|s| s.done.iter().all(|&d| d));
         rep.part(json!({"live_sender_variant": variant, "states": ex.states.len(), "all_trains_delivered_state_reached": all_done}));
-        if !all_done && rep.n_viol_sigs() == 0 {
+        if !all_done && SENDER_REFUSED.load(std::sync::atomic::Ordering::Relaxed) {
+            rep.cap("live-sender model incomplete: encap_ext refused the first buffer of a train");
+        } else if !all_done && rep.n_viol_sigs() == 0 {
             rep.violation("C07|live|vacuity|never-all-delivered", variant as u64, || ("no interleaving delivers all trains of the live-sender model".into(), json!({"variant": variant})));
         }
     }
